@@ -1,5 +1,6 @@
 """C04 Evaluator never receives both labels of a wire (offset stays secret)."""
 import hashlib
+import json
 import re
 
 import vlib
@@ -20,6 +21,20 @@ THEOREMS = [
     "Mpc.Sym.C04_stream_restart_rows",
     "Mpc.Sym.C04_stream_is_whole",
     "Mpc.streamGarble_persistent",
+    # per-kind tweak accounting of the (streamed) gate loop: Model/TweakAcc.lean, Proofs/TweakAcc.lean, Proofs/SymAcc.lean
+    "Mpc.garbleGatesAcc_code",
+    "Mpc.streamGarbleAcc_flatten",
+    "Mpc.garbleCore_queries_only",
+    "Mpc.tweakUses_sorted",
+    "Mpc.hashOf_unary",
+    "Mpc.Sym.gates_phi_acc",
+    "Mpc.Sym.C04_code_accounting_is_garbleGates",
+    "Mpc.Sym.C04_safe_accounting_tweaks_distinct",
+    "Mpc.Sym.C04_unary_tweak_shared_leaks",
+    "Mpc.Sym.C04_unary_tweak_shared_leaks_aes",
+    "Mpc.Sym.C04_inv_zero_tweak_stream_leaks",
+    "Mpc.Sym.C04_stream_safe_accounting",
+    "Mpc.Sym.C04_stream_no_two_labels_of_a_wire",
     "Mpc.Sym.C04_both_labels_leak",
     "Mpc.Sym.C04_ot_range_guard",
     "Mpc.Sym.C04_ot_range_unguarded_leaks",
@@ -113,10 +128,61 @@ def run(ctx):
                 ctx.distinct.add(hashlib.sha1(line.encode()).digest())
                 k += 1
             ctx.evaluations += k
+        # streaming mode gate by gate (harness/cmd/c04/streamcov.go, shadow.go): sessions chosen by gate-kind coverage; for
+        # every session the tweak under which every transmitted row was hashed is re-derived from the stream and compared
+        # with the per-kind accounting of the model (tweakUses codeAcc), no hash query may be made by two gates, and the
+        # window scan names the rows of any pair it finds
+        ctx.build_drv()
+        kinds = 23
+        acc_plan = [("direct", 200 if quick else 4000, ()), ("cover", 2 * kinds if quick else 12 * kinds, ()),
+                    ("cover", 3 if quick else 24, ("-extra", "long"))]
+        for mode, n, extra in acc_plan:
+            pre = mode + ("_long_" if extra else "_")
+            ops, out, meta = ctx.run_hx(mode, n, timeout=2400, extra_args=extra, tag="-long" if extra else "")
+            ctx.absorb_meta(meta, prefix=pre)
+            if meta.get("reuse_examples"):
+                ctx.coverage.setdefault("reused_hash_query_examples", []).extend(meta["reuse_examples"][:2])
+            ctx.correspond("tweaks under which the rows of real streaming sessions were hashed (%s%s) vs the per-kind "
+                           "accounting tweakUses codeAcc" % (mode, " long" if extra else ""), ops, out)
+            for line in open(ops, errors="replace"):
+                ctx.distinct.add(hashlib.sha1(line.encode()).digest())
+        ac = ctx.coverage.get("counters", {})
+        sh = {k: v for k, v in ac.items() if "shadow_" in k or "reused" in k}
+        ctx.oblige("every transmitted row of every analysed streaming session is reproduced by the model's hash functions under "
+                   "some tweak (the shadow garbler explains the whole stream; its wire pairs equal the garbler's wire table)",
+                   all(ac.get(p + "shadow_unrecovered_rows", 0) == 0 and ac.get(p + "shadow_unknown_input", 0) == 0
+                       and ac.get(p + "shadow_gates", 0) > 0 for p in ("direct_", "cover_", "cover_long_"))
+                   and ac.get("direct_shadow_pairs_equal_garbler_wire_table", 0) == ac.get("direct_sessions_direct", -1)
+                   and ac.get("direct_shadow_pairs_differ_from_garbler_wire_table", 0) == 0, str(sh))
+        ctx.oblige("no hash query (AES input block) is made by two different gates of a stream",
+                   all(ac.get(p + "sessions_with_reused_hash_query", 0) == 0 for p in ("direct_", "cover_", "cover_long_")),
+                   json.dumps(ctx.coverage.get("reused_hash_query_examples", [])[:2], indent=1)[:5000])
+        need = ["direct_adj_%s_%s_shared" % (a, b) for a in "xnaoi" for b in "aoi"]
+        need += ["direct_adj_%s_%s_aa" % (a, b) for a in "aoi" for b in "aoi"]
+        need += ["direct_adj_across_blocks_shared", "direct_gates_wide_ids"]
+        # both permute-bit values of the consuming gate's inputs in every class (the effect of a shared hash atom on two
+        # rows depends on them: C04_unary_tweak_shared_leaks)
+        need += ["direct_adj_%s_%s_shared_p%s%d" % (a, b, p, v) for a in "xnaoi" for b in "ao" for p in "ab" for v in (0, 1)]
+        need += ["direct_adj_%s_i_shared_pa%d" % (a, v) for a in "xnaoi" for v in (0, 1)]
+        need += ["cover_adj_%s_a_shared_p%s%d" % (a, p, v) for a in "xnai" for p in "ab" for v in (0, 1)]
+        # what compiled programs produce: no OR gates, INV only in front of AND / after XOR, XNOR, AND
+        need += ["cover_adj_i_a_aa", "cover_adj_a_a_shared", "cover_adj_x_a_shared", "cover_adj_n_a_shared", "cover_adj_a_i",
+                 "cover_adj_x_i_shared", "cover_adj_n_i_shared", "cover_adj_across_blocks_shared",
+                 "cover_sessions_with_ot_on_the_wire", "cover_programs_signed", "cover_long_adj_i_a_aa"]
+        need += ["cover_kind_" + k for k in ("sub lt gt le ge eq ne div mod mul add and or xor bclr subc csub ltc divc shl shr "
+                                             "mux index").split()]
+        need += ["%srows_offset_mod16_%d" % (p, i) for p in ("direct_", "cover_") for i in range(16)]
+        missing = [k for k in need if ac.get(k, 0) <= 0]
+        ctx.oblige("gate-kind coverage of the streaming sessions: every gate kind followed by every tweak-consuming kind on a "
+                   "shared wire with both permute-bit values of its inputs (direct), every adjacency class compiled programs produce and "
+                   "every instruction kind (cover), "
+                   "rows at every offset residue mod 16, 16- and 32-bit wire ids, real OT on the wire",
+                   not missing and ac.get("cover_programs_rejected_by_compiler", 0) * 10 <= ac.get("cover_programs", 0),
+                   "missing: %s" % missing)
+        ctx.coverage["adjacency_classes"] = {k: v for k, v in ac.items() if "_adj_" in k}
         # a garbler PROCESS: 2..4 overlapping sessions on one shared circuit value, evaluators stalling at seeded protocol
         # points, oracle over the union of everything obtained in all sessions; the observed event order is replayed on the
         # Lean process model (drv_c04)
-        ctx.build_drv()
         ov_runs = [(ctx.seed, 150 if quick else 2500)]
         for s, n in ov_runs:
             ops, out, meta = ctx.run_hx("overlap", n, seed=s, timeout=2400, tag="-proc")
@@ -144,14 +210,26 @@ def run(ctx):
                     ctx.absorb_meta(meta, prefix="widen_")
                 ops, out, meta = ctx.run_hx("overlap", 1500, seed=s, tag="-widen-proc", timeout=2400)
                 ctx.absorb_meta(meta, prefix="widen_")
+                for mode, n in (("direct", 2000), ("cover", 230)):
+                    ops, out, meta = ctx.run_hx(mode, n, seed=s, tag="-widen", timeout=2400)
+                    ctx.absorb_meta(meta, prefix="widen_")
                 if ctx.fails:
                     break
     ctx.coverage["rule"] = ("sessions of the three garbler protocols with real OT on the wire; every byte offset of the complete "
                             "garbler->evaluator stream is a 16-byte window; processes of 2..4 overlapping sessions on one shared "
                             "circuit value (deterministic sequential scheduler over evaluator stall points, 4 policies, failing "
                             "Garble calls), oracle over the union of all sessions' streams and OT results against secrets "
-                            "re-derived from the recorded tapes; distinct = distinct (circuit/program, inputs, OT, schedule) lines")
+                            "re-derived from the recorded tapes; streaming sessions chosen by gate-kind coverage (mode cover: one focus "
+                            "instruction kind per program out of 23, 12 widths, both signednesses, 4+ independent tapes per program, "
+                            "CO and ideal OT alternating; mode direct: Streaming.Garble on histories of generated instruction "
+                            "circuits, all 15 classes (gate kind, next tweak-consuming kind) on shared wires, 16/32-bit ids), each "
+                            "analysed gate by gate by a shadow garbler that re-derives every label and every tweak from the stream; "
+                            "distinct = distinct (circuit/program, inputs, OT, schedule) lines")
     ctx.assumptions += [
+        "the free-hash model keeps the half-gate hash (encryptHalf) and the table pad (encrypt) as independent families; in "
+        "the code they are one function of the block 2a+4b+t and coincide at b = 0 (hashOf_unary).  Queries of the two "
+        "families can only meet under one tweak, i.e. in two different gates with a common tweak, which a safe accounting "
+        "excludes (tweakUses_sorted) and the c04acc correspondence + hash-query oracle observe on the real code",
         "symbolic (free-hash) model: no computational secrecy claim; probability-2^-128 coincidences are outside it",
         "the theorem is stated for every hash model `code` that separates x from x xor R (a family from the coarsest to "
         "arbitrarily fine codes); the ideal injective code is not constructible as a Lean type (it would be circular)",
@@ -172,4 +250,11 @@ def run(ctx):
         "(Model/GarblerProc.lean on the C17 ownership model): for the code as it is every session's OT and result loop read "
         "the session's own garbling on every history (C04_proc_serves_own, C04_proc_ot_serves_own_wires), hence the union of "
         "all evaluators' views does not span any session's offset (C04_process_secrecy); harness mode overlap runs the real "
-        "Garbler/Evaluator in overlapping sessions on one shared circuit and judges the union of everything obtained.")
+        "Garbler/Evaluator in overlapping sessions on one shared circuit and judges the union of everything obtained. "
+        "Tweak accounting (Model/TweakAcc.lean): the gate loop for an arbitrary per-kind accounting; for every safe accounting "
+        "(each kind reserves at least the tweaks it uses; the code's: AND 2, OR 1, INV 1) no tweak is used twice and the "
+        "streaming evaluator's view of any stream of instruction circuits does not span the offset "
+        "(C04_stream_safe_accounting); an accounting that reserves nothing for INV leaks through INV(a), AND(a, b) "
+        "(C04_inv_zero_tweak_stream_leaks; the code's unary pad is the half-gate hash: hashOf_unary).  Modes cover / direct: "
+        "the tweaks under which the rows of real streaming sessions were hashed, re-derived from the stream, equal "
+        "tweakUses codeAcc (op c04acc); no AES input block is queried by two gates; every gate-adjacency class occurred.")
